@@ -74,3 +74,56 @@ Theorem C18_binary_cfg_clean : forall argv f c, loaded_cfg argv f = Some c ->
   is_clean_abs (c_base c) = true /\ is_clean_abs (c_layers c) = true /\ is_clean_abs (c_exports c) = true.
 Proof. exact whole_cfg_clean. Qed.
 Print Assumptions C18_binary_cfg_clean.
+
+(* ---- the regenerated constants this property's predicate / model rest on, against literals.
+   Gen/Consts.v is rewritten from the source of /repo on every run, so without this theorem an
+   edit of one of these constants would move model, predicate and code together and nothing
+   would be reported.  Used by: Model/Config.v runs on this table (C18.spec has its own table written from the manual, Cases/C18.v doc_keys / doc_default, so a changed default or key is a concrete failing input already; this theorem reports the edit even where no generated file reaches it).
+   "frozen" = no manual text gives the value; it is the value of the reviewed tree. *)
+From LC Require Import Gen.Consts Proofs.C18PinsP.
+Local Open Scope string_scope.
+Theorem C18_constants_pinned :
+  (* doc/layercake_config.adoc "Default configuration" *)
+  D_BasePath = bs "/var/lib/layercake" /\
+  (* doc/layercake_config.adoc "Default configuration" *)
+  D_Layerdirs = bs "layers" /\
+  (* doc/layercake_config.adoc "Default configuration" *)
+  D_Builddir = bs "build" /\
+  (* doc/layercake_config.adoc "Default configuration" *)
+  D_Pkgdir = bs "packages" /\
+  (* doc/layercake_config.adoc "Default configuration" *)
+  D_Generateddir = bs "generated" /\
+  (* doc/layercake_config.adoc "Default configuration" (the manual page's LAYER DIRECTORY section says overlay/workdir: NOTES-r5.md) *)
+  D_Workdir = bs "overlayfs/workdir" /\
+  (* doc/layercake_config.adoc "Default configuration" *)
+  D_Upperdir = bs "overlayfs/upperdir" /\
+  (* doc/layercake_config.adoc "Default configuration" *)
+  D_Exportdirs = bs "export" /\
+  (* doc/layercake_config.adoc "Default configuration" *)
+  D_ChrootExec = bs "/usr/bin/chroot" /\
+  (* frozen from the reviewed tree *)
+  CF_ss_value = 0%N /\
+  (* frozen from the reviewed tree *)
+  CF_ss_file = 1%N /\
+  (* frozen from the reviewed tree *)
+  CF_ss_dir = 2%N /\
+  (* frozen from the reviewed tree (iota block) *)
+  (CF_cfKey_none, CF_cfKey_basepath, CF_cfKey_configfile, CF_cfKey_layerdirs, CF_cfKey_buildroot, CF_cfKey_binpkgdir, CF_cfKey_gendir) = (0, 1, 2, 3, 4, 5, 6)%N /\
+  (* frozen from the reviewed tree *)
+  (CF_cfKey_workdir, CF_cfKey_upperdir, CF_cfKey_exportroot, CF_cfKey_exportpkgdir, CF_cfKey_exportgendir, CF_cfKey_chrootexec) = (7, 8, 9, 10, 11, 12)%N /\
+  (* (key, kind: 0 value 1 file 2 directory, resolved against key, default, name in a configuration file): keys, kinds and defaults as in doc/layercake_config.adoc "Default configuration" and the manual page CONFIGURATION FILE; the spellings OVERFS_WORKDIR / OVERFS_UPPERDIR / CHROOT_EXEC differ from the manual's WORKDIR / UPPERDIR / CHROOTEXEC (known finding C18 id=1) *)
+  CF_settingSetup = [
+    (1, 2, 0, bs "/var/lib/layercake", bs "BASEPATH");
+    (2, 1, 0, bs "", bs "CONFIGFILE");
+    (3, 2, 1, bs "layers", bs "LAYERS");
+    (4, 0, 0, bs "build", bs "BUILDROOT");
+    (5, 0, 0, bs "packages", bs "BINPKGS");
+    (6, 0, 0, bs "generated", bs "GENERATED_FILES");
+    (7, 0, 0, bs "overlayfs/workdir", bs "OVERFS_WORKDIR");
+    (8, 0, 0, bs "overlayfs/upperdir", bs "OVERFS_UPPERDIR");
+    (9, 2, 1, bs "export", bs "EXPORTS");
+    (10, 0, 0, bs "packages", bs "EXPORT_BINPKGS");
+    (11, 0, 0, bs "generated", bs "EXPORT_GENERATED_FILES");
+    (12, 1, 0, bs "/usr/bin/chroot", bs "CHROOT_EXEC")]%N.
+Proof. exact c18_constants_pinned. Qed.
+Print Assumptions C18_constants_pinned.
